@@ -720,6 +720,55 @@ def r13(p, rep):
     return n
 
 
+def _axis_positions(fnode):
+    """[(call, axis name, X, enumerated expression E, ok)] for calls `g(X.value, .., axis=<name>)` whose axis name is
+    bound once to something that enumerates E"""
+    out = []
+    for c in walk_no_nested(fnode):
+        if not (isinstance(c, ast.Call) and c.args and isinstance(c.args[0], ast.Attribute) and c.args[0].attr == "value" and isinstance(c.args[0].value, ast.Name)):
+            continue
+        ax = common.kwarg(c, "axis")
+        if not isinstance(ax, ast.Name):
+            continue
+        X = c.args[0].value.id
+        defs = [a.value for a in walk_no_nested(fnode) if isinstance(a, ast.Assign) and any(isinstance(t, ast.Name) and t.id == ax.id for t in a.targets)]
+        if len(defs) != 1:
+            continue
+        enums = [e for e in ast.walk(defs[0]) if isinstance(e, ast.Call) and isinstance(e.func, ast.Name) and e.func.id == "enumerate" and len(e.args) == 1]
+        if len(enums) != 1 or not isinstance(enums[0].args[0], (ast.Name, ast.Attribute)):
+            continue
+        E = enums[0].args[0]
+        own = {f"{X}.expr"} | {t.id for a in walk_no_nested(fnode) if isinstance(a, ast.Assign) and norm(a.value) == f"{X}.expr" for t in a.targets if isinstance(t, ast.Name)}
+        # X itself may have been built as NamedTensor(.., E)
+        built = {norm(a.value.args[1]) for a in walk_no_nested(fnode) if isinstance(a, ast.Assign) and any(isinstance(t, ast.Name) and t.id == X for t in a.targets) and isinstance(a.value, ast.Call) and norm(a.value.func).split(".")[-1] == "NamedTensor" and len(a.value.args) == 2}
+        out.append((c, ax.id, X, E, norm(E) in own or norm(E) in built))
+    return out
+
+
+def r14(p, rep):
+    rep.rule("C01.R14", "an axis position handed to a backend call on `T.value` is counted in T's own expression, not in another tensor's or the requested output's", "T-DER (where the position of an `axis=` argument is enumerated vs whose value it is applied to) with a positive self-check", floor=1)
+    import os
+
+    from sa.core import set_parents
+
+    n = 0
+    for f in p.funcs.values():
+        if not f.module.name.startswith("einx._src.adapter") or not isinstance(f.node, ast.FunctionDef):
+            continue
+        for c, axn, X, E, ok in _axis_positions(f.node):
+            n += 1
+            rep.add("C01.R14", f"{f.qualname}:axis({axn})@{X}", f"{f.module.rel}:{c.lineno}", ok, f"`{axn}` is enumerated over `{norm(E)}`, the expression of `{X}`" if ok else f"`{norm(c)[:70]}` applies positions counted in `{norm(E)}` to `{X}.value`, which is arranged as `{X}.expr`: when the two list their axes in different orders (an output that moves the bracketed axis) the operation hits a different axis - right shape, wrong values")
+    pos = os.path.join(os.path.dirname(os.path.dirname(os.path.abspath(__file__))), "selftest", "positive", "axis_of_other_expr.py")
+    tree = ast.parse(open(pos).read())
+    set_parents(tree)
+    fns = {x.name: x for x in tree.body if isinstance(x, ast.FunctionDef)}
+    b_, g_ = _axis_positions(fns["bad"]), _axis_positions(fns["good"])
+    if not (len(b_) == 1 and not b_[0][4] and len(g_) == 1 and g_[0][4]):
+        raise AnalysisError("self-check of C01.R14 failed on selftest/positive/axis_of_other_expr.py")
+    rep.ok("C01.R14", "self-check:positive-example", "selftest/positive/axis_of_other_expr.py", "the rule reports the seeded positive example and accepts its corrected twin")
+    rep.ok("C01.R14", "sweep", "einx/_src/adapter", f"{n} axis positions applied to a named tensor's value", nontrivial=False)
+
+
 def r12(p, rep):
     rep.rule("C01.R12", "the three operand expressions of the batched-matmul lowering of dot are built from shared axis groups: the batch group is the same list in left, right and out; every other group is used by exactly two of them", "T-SIB (source list of each group of the three matmul expressions)", floor=1)
     m = p.module("adapter.decomposednamedtensor_from_classical")
@@ -847,6 +896,7 @@ def _dict_keys(p, f, e, depth=0):
 
 
 def run(p, rep, tier):
+    r14(p, rep)
     r1(p, rep)
     r2(p, rep)
     r3(p, rep)
